@@ -10,7 +10,8 @@ EXPLANATION = (
     "outside any loop, dominated by a decrement-by-one of the header's TTL and by the branch on which the decremented "
     "TTL is non-zero; the re-serialised header is the decremented copy; next hop and interface originate from "
     "IpTable::get_recipient(header.destination) and a missing route returns without forwarding and a found route always leads to the forwarding task; the task performs one "
-    "send_pci. TTL-0 arrival must not panic (shared with C14). Decides these structural clauses for all inputs; "
+    "send_pci; (X-RESOLVED) the task's formula specialised to the outcome of Arp::resolve: failure puts nothing on the "
+    "wire, success sends one frame to Some(the resolved hardware address). TTL-0 arrival must not panic (shared with C14). Decides these structural clauses for all inputs; "
     "multi-hop delivery and network silence are runtime behaviour and not decided.")
 ASSUMPTIONS = []
 
